@@ -1,10 +1,11 @@
-\* exhaustive: chains of 1..3 steps, 1..2 requested objects, 7 hook outcomes per step (<= 1 count-changing step), 2 rule-declaration variants: ~2.8 k states, 1136 cases
+\* exhaustive: chains of 1..3 steps, 1..2 requested objects, 8 hook outcomes per step (<= 1 count-changing step), 2 rule-declaration variants: ~2.8 k states, 1136 cases
 SPECIFICATION Spec
 CONSTANTS
   MaxLen = 3
   Counts = {1, 2}
-  Kinds = {"exit1", "empty", "malformed", "failmsg", "ok", "drop", "extra"}
+  Kinds = {"exit1", "empty", "malformed", "failmsg", "failobj", "ok", "drop", "extra"}
   Variants = {"ff", "mixed+d"}
+  Layouts = {"perhook", "split"}
   Reach = {TRUE, FALSE}
   FixFailMsg = TRUE
   FixCount = TRUE
